@@ -115,7 +115,8 @@ pub fn run(ctx: &mut Ctx) {
     ctx.run_cases("streams", n, false, |ctx, rng, idx| {
         let nstates = if idx % 11 == 0 { rng.range(1, 3) } else { rng.range(1, 60) };
         let vlen = rng.range(1, 4);
-        let wset = idx % 10;
+        // (one case in eight with the static window zero-padded to width 3 or 5)
+        let wset = idx % 10 + if (idx / 10) % 8 == 3 { 10 * (1 + (idx / 80) % 2) } else { 0 };
         let wins = window_set(wset);
         let nwin = wins.len();
         let kind = (idx / 10) % 6;
